@@ -179,6 +179,17 @@ pub fn run(ctx: &Ctx) {
             }
             Err(e) => ctx.violation("x.public_key", &format!("panic: {}", e), case.clone()),
         }
+        // the public clamping function itself, and the scalar types built on it
+        {
+            ctx.eval(1);
+            let got = curve25519_dalek::scalar::clamp_integer(*k);
+            if got != mont::clamp(k) {
+                ctx.violation("x.clamp_integer", &format!("got {} want {}", hex(&got), hex(&mont::clamp(k))), json!({"kind": "clamp", "k": hex(k)}));
+            }
+            if curve25519_dalek::scalar::clamp_integer(got) != got {
+                ctx.violation("x.clamp_integer", "clamping is not idempotent", json!({"kind": "clamp", "k": hex(k)}));
+            }
+        }
         for u in &uu {
             ctx.eval(1);
             let want = mont::x25519(k, u);
@@ -191,6 +202,21 @@ pub fn run(ctx: &Ctx) {
                 let rr = ReusableSecret::random_from_rng(ScriptRng::new(k)).diffie_hellman(&pk);
                 let ss = StaticSecret::from(*k).diffie_hellman(&pk);
                 let mp = MontgomeryPoint(*u).mul_clamped(*k).to_bytes();
+                // the operator forms on the clamped (unreduced, bit 254 set) integer: the documented use of an
+                // unreduced scalar; all three impls
+                {
+                    let sc = curve25519_dalek::verif::scalar_from_raw_bytes(mont::clamp(k));
+                    let p = MontgomeryPoint(*u);
+                    let mut q = p;
+                    q *= &sc;
+                    assert!((&p * &sc).to_bytes() == mp && (&sc * &p).to_bytes() == mp && q.to_bytes() == mp, "MontgomeryPoint * clamped integer differs from mul_clamped");
+                    #[cfg(feature = "legacy")]
+                    {
+                        #[allow(deprecated)]
+                        let fb = curve25519_dalek::scalar::Scalar::from_bits(mont::clamp(k));
+                        assert!((&p * &fb).to_bytes() == mp, "MontgomeryPoint * Scalar::from_bits(clamped) differs from mul_clamped");
+                    }
+                }
                 (raw, e.to_bytes(), e.was_contributory(), rr.to_bytes(), rr.was_contributory(), ss.to_bytes(), ss.was_contributory(), mp, pk.to_bytes())
             });
             match r {
